@@ -8,7 +8,11 @@ open Adept
     red   <W> <cfg> <outer extents>:<n> <expr>                                 -> vec= is= ie= pk=
     pack  <W> <outer extents>:<n>                                              -> off <offsets of dims 0..Rank-2>
     packc <W> <outer extents>:<n>                                              -> off … (no padding)
-    expr  := A:<a>:<inner>:<outer offsets> | F:<a>:<extents> | S | U expr | B expr expr
+    whr   <W>                                                                  -> vec=0 is=0 ie=0 pk=0 (where(): no packet loop)
+    expr  := A:<a>:<inner>:<outer offsets> | F:<a>:<extents> | S | U expr | B expr expr     (operation with a packet form)
+           | UN expr | BN expr expr     (operation without a packet form / other element type)
+           | SP0 A:… | SPL A:…          (spread along a dimension that is not / is the last one of the result)
+           | O A:… A:…                  (outer_product)      | X   (leaf with Expression's fall-back trait: IndexedArray)
     cfg   := three characters 0/1: fixedToBoundary fixedRowsChecked allOuterChecked
     lists are comma separated, `-` is the empty list -/
 namespace SimdDrv
@@ -35,17 +39,29 @@ def parseExpr : Nat → List String → Option (Expr × List String)
   | _ + 1, [] => none
   | fuel + 1, tok :: rest =>
     if tok = "S" then some (.agn, rest)
-    else if tok = "U" then
+    else if tok = "X" then some (.plain, rest)
+    else if tok = "U" ∨ tok = "UN" then
       match parseExpr fuel rest with
-      | some (e, r) => some (.un e, r)
+      | some (e, r) => some (.un (tok = "U") e, r)
       | none => none
-    else if tok = "B" then
+    else if tok = "B" ∨ tok = "BN" then
       match parseExpr fuel rest with
       | some (l, r1) =>
         match parseExpr fuel r1 with
-        | some (r, r2) => some (.bin l r, r2)
+        | some (r, r2) => some (.bin (tok = "B") l r, r2)
         | none => none
       | none => none
+    else if tok = "SP0" ∨ tok = "SPL" then
+      match parseExpr fuel rest with
+      | some (.arr v, r) => some (.spread (tok = "SPL") v, r)
+      | _ => none
+    else if tok = "O" then
+      match parseExpr fuel rest with
+      | some (.arr l, r1) =>
+        match parseExpr fuel r1 with
+        | some (.arr r, r2) => some (.outer l r, r2)
+        | _ => none
+      | _ => none
     else
       match tok.splitOn ":" with
       | ["A", a, inner, outer] =>
@@ -86,6 +102,10 @@ def step (s : Unit) (ws : List String) : Unit × String :=
       | some od, some n => (s, showPlan (reducePlan cfg w od n e))
       | _, _ => (s, "bad-op")
     | _, _, _, _ => (s, "bad-op")
+  | ["whr", w] =>
+    match w.toNat? with
+    | some _ => (s, showPlan wherePlan)
+    | none => (s, "bad-op")
   | [op, w, dims] =>
     if op = "pack" ∨ op = "packc" then
       match w.toNat?, dims.splitOn ":" with
